@@ -62,15 +62,20 @@ def r33(ctx, res):
     n = 0
     # dimension-ordered selection in polyhedron x polyhedron
     fj = repo.fn("inter_convexpolyhedron_convexpolyhedron", "calc.intersection")
+    # the selection is an if/elif chain, or a sequence of `if len(X) ...: return / raise` statements at body level:
+    # either way the tests are evaluated in source order
     chains = [x for x in fj.node.body if isinstance(x, ast.If)]
-    sel = None
+    rows = []
     for c in chains:
-        rows, els = if_chain(c)
-        if len(rows) >= 4 and all("len(" in txt(t) for t, _ in rows):
-            sel = (rows, els)
-    if sel is None:
+        rws, els = if_chain(c)
+        if all("len(" in txt(t) for t, _ in rws):
+            terminating = all(b and isinstance(b[-1], (ast.Return, ast.Raise)) for _, b in rws)
+            if len(rws) >= 4 or terminating:
+                rows += rws
+            if not terminating and len(rws) < 4:
+                rows = []
+    if len(rows) < 4:
         raise AnalysisError("%s: result-selection chain not found" % fj.where())
-    rows, els = sel
     dims = []
     for test, body in rows:
         names = [x.args[0].id for x in ast.walk(test) if isinstance(x, ast.Call) and isinstance(x.func, ast.Name)
@@ -98,23 +103,27 @@ def r33(ctx, res):
                       "the tested sets is %s" % (fj.short, [(nm, d) for d, nm, _ in dims]), construct="%s: selection order" % fj.short)
     # cardinality ladders:  len(X) == 0 -> None, == 1 -> element, == 2 -> Segment / longest segment, more -> hull
     handlers, helpers, inter = handler_functions(ctx)
-    for fi in handlers:
+    from .c15 import expand_guard
+    mod = repo.module("calc.intersection")
+    for fi in [f for f in mod.functions.values() if f is not inter]:
         if not eng.summaries_of(fi):
             continue
-        for st in chain_heads(fi.node):
-            rows, els = if_chain(st)
-            ladder = {}
-            var = None
-            for test, body in rows:
-                if isinstance(test, ast.Compare) and len(test.ops) == 1 and isinstance(test.ops[0], ast.Eq) \
-                        and isinstance(test.left, ast.Call) and txt(test.left.func) == "len" and isinstance(test.left.args[0], ast.Name) \
-                        and isinstance(test.comparators[0], ast.Constant) and isinstance(test.comparators[0].value, int):
-                    var = test.left.args[0].id
-                    ladder[test.comparators[0].value] = body
+        # one ladder per counted collection: an if/elif chain, or consecutive `if len(X) == k: return ...` statements
+        groups = {}
+        for st in [x for x in walk_local(fi.node) if isinstance(x, ast.If)]:
+            test = expand_guard(fi, st.test)
+            if isinstance(test, ast.Compare) and len(test.ops) == 1 and isinstance(test.ops[0], ast.Eq) \
+                    and isinstance(test.left, ast.Call) and txt(test.left.func) == "len" and isinstance(test.left.args[0], ast.Name) \
+                    and isinstance(test.comparators[0], ast.Constant) and isinstance(test.comparators[0].value, int):
+                groups.setdefault(test.left.args[0].id, []).append((test.comparators[0].value, st))
+        for var0, items in sorted(groups.items()):
+            st = min((x[1] for x in items), key=lambda z: z.lineno)
+            ladder = {k: s_.body for k, s_ in items}
+            var = var0
             if var is None or not ({1, 2} & set(ladder)):
                 continue
             ty = set()
-            for nm in ast.walk(st.test):
+            for nm in walk_local(fi.node):
                 if isinstance(nm, ast.Name) and nm.id == var:
                     for t in eng.types_at(fi, nm):
                         if isinstance(t, tuple) and t[0] in ("set", "list", "tuple"):
@@ -143,7 +152,7 @@ def r33(ctx, res):
             if not ok:
                 res.violation("R3.3", fi, st, "%s maps the number of collected points to the wrong kind of result: %s" % (
                     fi.short, "; ".join(problems)), construct="%s: ladder on %s" % (fi.short, var))
-    ctx.require(res, "R3.3", n, 5, "selection obligations")
+    ctx.require(res, "R3.3", n, 2, "selection obligations")
 
 
 def run(ctx, res):
